@@ -535,7 +535,7 @@ class Expander:
         opts = {}
         name_parts = []
         for p in rest:
-            if "=" in p and not name_parts == [] and re.match(r"^(ret|as|vis)=", p):
+            if "=" in p and not name_parts == [] and re.match(r"^(ret|as|vis|derive)=", p):
                 k, v = p.split("=", 1)
                 opts[k] = v
             elif p in ("exec-const", "keep-attrs", "external-body", "no-body"):
@@ -581,6 +581,16 @@ class Expander:
             a_s, a_e = arrow  # offsets (relative) of the type text
             ed.insert(a_s, f"({opts['ret']}: ", ("tmpl", self.unit, lineno))
             ed.insert(a_e, ")", ("tmpl", self.unit, lineno))
+        if "derive" in opts:
+            # re-emit a subset of the item's own #[derive(..)] list (the rest is dropped, rule 1)
+            outer = src.text[src.toks[item.first].s:item.start]
+            m = re.search(r"#\[derive\(([^)]*)\)\]", outer)
+            have = [x.strip() for x in m.group(1).split(",")] if m else []
+            want = [x.strip() for x in opts["derive"].split(",")]
+            for w in want:
+                if w not in have:
+                    raise ExtractError(f"{self.unit}:{lineno}: {name} does not derive {w} in {relpath}")
+            ed.insert(0, f"#[derive({', '.join(want)})]\n", ("tmpl", self.unit, lineno))
         if "as" in opts:
             nt = src.sig(item.kw + 1)
             # for fn/const/struct the name token follows the keyword
